@@ -34,6 +34,28 @@ def heap_calls(ev):
   return out
 
 
+def size_steps(ev, delta):
+  """Indices of the events that move self._size by delta: `self._size += 1` / `-= 1`, or `self._size = <local copy of self._size taken on this path, with no write in between> + / - 1`."""
+  out = []
+  want = 'self._size+1' if delta > 0 else 'self._size-1'
+  for i, e in enumerate(ev):
+    if e.kind != 'stmt':
+      continue
+    n = e.node
+    if isinstance(n, ast.AugAssign) and U(n.target) == 'self._size' and isinstance(n.op, ast.Add if delta > 0 else ast.Sub) and U(n.value) == '1':
+      out.append(i)
+    elif isinstance(n, ast.Assign) and len(n.targets) == 1 and U(n.targets[0]) == 'self._size':
+      if resolved_text(ev, i, n.value) in (want, '1+self._size' if delta > 0 else want):
+        # the copy must still be current: no write of self._size since it was taken
+        names = [x.id for x in ast.walk(n.value) if isinstance(x, ast.Name)]
+        taken = [j for j, d in enumerate(ev[:i]) if d.kind == 'stmt' and isinstance(d.node, ast.Assign) and any(U(t) in names for t in d.node.targets)]
+        start = taken[-1] if taken else 0
+        if not any(d.kind == 'stmt' and isinstance(d.node, (ast.Assign, ast.AugAssign)) and any(U(t) == 'self._size' for t in (d.node.targets if isinstance(d.node, ast.Assign) else [d.node.target]))
+                   for d in ev[start + 1:i]):
+          out.append(i)
+  return out
+
+
 def is_last_slot(ev, slot):
   """What the branch conditions on a path say about `slot` (resolved text) versus the last live slot
   self._size: True (slot is the last one), False (it is not) or None (nothing tested)."""
@@ -392,7 +414,7 @@ def add_remove(ctx, rule='C03.R3'):
          'different, live member is popped')
   a = prog.func(H, 'HeapBalancerSink._AddSink')
   for ev, ex in enum_paths(ctx, a):
-    inc = [i for i, e in enumerate(ev) if e.kind == 'stmt' and isinstance(e.node, ast.AugAssign) and U(e.node.target) == 'self._size' and isinstance(e.node.op, ast.Add) and U(e.node.value) == '1']
+    inc = size_steps(ev, +1)
     app = [i for i, e in enumerate(ev) if e.kind == 'call' and U(e.node.func) == 'self._heap.append']
     ops = [(k, a_) for _, k, a_ in heap_calls(ev)]
     mk = [e.node for e in ev if e.kind == 'call' and U(e.node.func) == 'self.Node']
@@ -423,7 +445,7 @@ def add_remove(ctx, rule='C03.R3'):
         what_r = w or what_r
         ok = ok and len(ops) == 1 + used
     pops = [i for i, e in enumerate(ev) if e.kind == 'call' and U(e.node.func) == 'self._heap.pop' and not e.node.args]
-    dec = [i for i, e in enumerate(ev) if e.kind == 'stmt' and isinstance(e.node, ast.AugAssign) and U(e.node.target) == 'self._size' and isinstance(e.node.op, ast.Sub) and U(e.node.value) == '1']
+    dec = size_steps(ev, -1)
     hcs = heap_calls(ev)
     ok = ok and len(pops) == 1 and len(dec) == 1 and hcs and hcs[-1][0] < pops[0] < dec[0]
     mark = [e for e in ev if e.kind == 'stmt' and isinstance(e.node, ast.Assign) and nd and U(e.node.targets[0]) == nd[0] + '.index' and U(e.node.value) == '-1']
